@@ -68,6 +68,8 @@ class Coll:
         c.bin_extra = {k: v.copy() for k, v in self.bin_extra.items()}
         c.pixels = self.pixels.copy()
         c.metadata = copy.deepcopy(self.metadata)
+        if getattr(self, "no_mode_attr", False):
+            c.no_mode_attr = True
         if hasattr(self, "approx_cols"):
             c.approx_cols = set(self.approx_cols)
         if hasattr(self, "dtype_alternatives"):
